@@ -81,8 +81,8 @@ pub fn file_values(tier: Tier) -> Vec<(String, String)> {
         inputs.push(("json-shape".into(), sh));
     }
     // ---- (5) foreign keys in every position, unresolvable / cyclic / malformed ---------------------------------
-    for t in ["a", "b", "k", "nokey", "p", "count", "a.b", "", ".", ":", "x:a", "a b", "é"] {
-        for args in ["", ", {}", ", {\"x\": 1}", ", {\"count\": 1}", ", {\"count\": \"{{ n }}\"}", ", {\"count\": \"x\"}", ", {\"x\": \"$t(k)\"}", ", {\"x\": {}}", ", {x: 1}", ", {\"x\": 1", ", }", ", {\"x\": \"é🎉\"}) tail", ", {\"x\":\"}\"})"] {
+    for t in ["a", "b", "k", "nokey", "p", "count", "a.b", "", ".", ":", "x:a", "a b", "é", "e", "c"] {
+        for args in ["", ", {}", ", {\"x\": 1}", ", {\"count\": 1}", ", {\"count\": \"{{ n }}\"}", ", {\"count\": \"x\"}", ", {\"x\": \"$t(k)\"}", ", {\"x\": {}}", ", {x: 1}", ", {\"x\": 1", ", {\"x\": \"\"}", ", }", ", {\"x\": \"é🎉\"}) tail", ", {\"x\":\"}\"})"] {
             for wrap in ["{}", "pre {} post", "<b>{}</b>", "{{{}}}"] {
                 let s = wrap.replace("{}", &format!("$t({t}{args})"));
                 inputs.push(("fk-forms".into(), json_string(&s, false)));
